@@ -35,10 +35,16 @@ Plains == <<
     I(12), X("RD"), Raw(Hostile), N("u"), X("exch"), X("def"), I(3), X("RD"), Raw(<<48, 48, 10>>), N("v"), X("exch"), X("def")>> \o Close,
   <<N("a"), I(1), X("def"), N("b"), I(2), X("def")>>,                         \* no closefile: the section runs to the end of the file
   <<I(7), X("string"), X("currentfile"), X("exch"), X("readstring"), Raw(<<9, 8, 7>>)>>,   \* data ends early: short string, false
-  <<LBrace, I(1), X("currentfile"), X("closefile"), I(2), RBrace, X("exec")>>   \* closefile inside a procedure abandons the rest
+  <<LBrace, I(1), X("currentfile"), X("closefile"), I(2), RBrace, X("exec")>>,  \* closefile inside a procedure abandons the rest
+  <<N("a"), I(1), X("def"), I(7), X("stop"), I(8)>>,                           \* 12: stop ends the program, not just the section
+  <<LBrace, I(7), LBrace, X("stop"), RBrace, X("exec"), I(8), RBrace, X("loop"), I(9)>>,   \* 13: stop from inside a loop
+  <<LBrace, X("currentdict"), X("begin"), RBrace, X("loop")>>                   \* 14: the dictionary stack limit holds inside the section
 >>
 \* which plaintexts end in closefile (only those may be followed by a trailer)
-Closes(p) == p \notin {9, 10}
+Closes(p) == p \notin {9, 10, 14}
+\* tokens placed before "currentfile eexec": plaintext 14 enters the section with 18 dictionaries open,
+\* so that the section's own systemdict is the last entry the limit allows
+PreExtra(p) == IF p = 14 THEN [j \in 1..36 |-> IF j % 2 = 1 THEN X("currentdict") ELSE X("begin")] ELSE <<>>
 
 Pre == <<N("before"), I(1), X("def"), X("currentfile"), X("eexec")>>
 ZeroLines == [j \in 1..8 |-> I(0)]
@@ -87,15 +93,24 @@ PickProg == /\ phase = "pick"
                   /\ (Tier = "quick" => (b \in {"sp", "crlf"} \/ p = 1))
                   /\ stim' = [p |-> p, form |-> f, lead |-> DefaultLead(f), ws |-> w, blank |-> b, trailer |-> t]
             /\ phase' = "start" /\ UNCHANGED s
-Feed(st) == Pre \o Plains[st.p] \o Trailer(st.trailer)
+PreOf(p) == <<N("before"), I(1), X("def")>> \o PreExtra(p) \o <<X("currentfile"), X("eexec")>>
+\* the operation budget runs out inside (or around) the section: plaintexts 1, 2, 13 under every budget
+\* up to BudgetMax in one form (C11: the budget error surfaces with NumOps = N + 1 there too)
+BudgetMax == 45
+PickBudget == /\ phase = "pick"
+              /\ \E p \in {1, 2, 13}, f \in {"bin", "hexlower"}, b \in 1..BudgetMax :
+                    stim' = [p |-> p, form |-> f, lead |-> DefaultLead(f), ws |-> (IF f = "bin" THEN "none" ELSE "lines64"),
+                             blank |-> "sp", trailer |-> (IF p = 13 THEN "none" ELSE "tokens"), budget |-> b]
+              /\ phase' = "start" /\ UNCHANGED s
+Feed(st) == PreOf(st.p) \o Plains[st.p] \o Trailer(st.trailer)
 Start == /\ phase = "start" /\ phase' = "run"
-         /\ s' = FreshState(Feed(stim), 0) /\ UNCHANGED stim
+         /\ s' = FreshState(Feed(stim), IF "budget" \in DOMAIN stim THEN stim.budget ELSE 0) /\ UNCHANGED stim
 Run == /\ phase = "run" /\ s.status = "running"
        /\ s' = Step(s) /\ UNCHANGED <<stim, phase>>
-Next == PickLead \/ PickProg \/ Start \/ Run
+Next == PickLead \/ PickProg \/ PickBudget \/ Start \/ Run
 
-Vector == [pre |-> Pre, plain |-> Plains[stim.p], trailer |-> stim.trailer, form |-> stim.form, lead |-> stim.lead,
-           ws |-> stim.ws, blank |-> stim.blank, p |-> stim.p, init |-> <<>>, maxops |-> 0,
+Vector == [pre |-> PreOf(stim.p), plain |-> Plains[stim.p], trailer |-> stim.trailer, form |-> stim.form, lead |-> stim.lead,
+           ws |-> stim.ws, blank |-> stim.blank, p |-> stim.p, init |-> <<>>, maxops |-> s.maxops, nops |-> s.nops,
            status |-> s.status, errs |-> s.errs, ost |-> s.ost, dst |-> s.dst,
            heap |-> s.heap.c, nheap |-> s.heap.n]
 Emit == (phase = "run" /\ s.status \in {"done", "error"}) => CSVWrite("%1$s", <<ToJson(Vector)>>, OutFile)
@@ -104,7 +119,10 @@ ASSUME JsonSerialize(BaseFile, [heap |-> FreshHeap, nfixed |-> NFixed])
 \* design-level: the dictionary stack after the run is the one before the section, the
 \* section never nests, and no behaviour is skipped (every generated stimulus has an outcome)
 Inv == /\ DictStackBounded(s) /\ DictStackBase(s)
-       /\ (phase = "run" /\ s.status = "done") => (s.eex = 0 /\ (stim.p # 5 => Len(s.dst) = 2))
+       /\ (phase = "run" /\ s.status = "done") => (s.eex = 0 /\ (stim.p \notin {5, 12, 13} => Len(s.dst) = 2))
        /\ (phase = "run") => s.status # "skip"
-DictStackRestored == [][ (phase = "run" /\ s.eex > 0 /\ s'.eex = 0) => Len(s'.dst) = s.eex ]_vars
+\* the section ends by closefile or at the end of the file with the dictionary stack restored, or the
+\* program is stopped (nothing is left to run and the dictionary stack stays as it is)
+DictStackRestored == [][ (phase = "run" /\ s.eex > 0 /\ s'.eex = 0) =>
+                           (Len(s'.dst) = s.eex \/ (s'.dst = s.dst /\ s'.est = <<>> /\ s'.feed = <<>>)) ]_vars
 =============================================================================
